@@ -140,9 +140,7 @@ def _run(ctx, thorough, rng, exe, tmp):
             if probs: ctx.note("%s skipped: %s" % (s.sid, probs)); bad = True; break
             evs += ev
         if not bad: items.append((ch[0], evs)); ctx.cov["evaluations"] += len(evs)
-    allk = check.load_known_all()
-    other = sorted(k for p, d in allk.items() if p != "C16" for k in d if k in track.TRACK_QUIRKS)
-    cfgtext = open(os.path.join(tlc.SPEC, "Trace_Track.cfg")).read().replace("TQ = {}", "TQ = {%s}" % ", ".join('"%s"' % x for x in other))
+    cfgtext, _, _ = check.quirk_cfg("Trace_Track.cfg", "C16")
     rej = check.validate_scripts(ctx, "Trace_Track.tla", "_tl.cfg", items, timeout=1800, batch=6, extra_files={"_tl.cfg": cfgtext})
     for s, ev, k, r in rej:
         e = ev[k] if k < len(ev) else {}
